@@ -23,7 +23,7 @@ const INTERESTING: [u8; 14] = [0, 1, 2, 3, 7, 8, 0x3f, 0x40, 0x41, 0x7f, 0x80, 0
 pub fn mutate(rng: &mut Rng, h: &Honest, other: Option<&Honest>) -> (Vec<u8>, String) {
     let mut b = h.bytes.clone();
     let comps = &h.layout;
-    let kind = rng.usize(14);
+    let kind = rng.usize(17);
     let pick_comp = |rng: &mut Rng| {
         let i = rng.usize(comps.len() - 1);
         (comps[i].0, comps[i].1, comps[i + 1].1)
@@ -93,6 +93,21 @@ pub fn mutate(rng: &mut Rng, h: &Honest, other: Option<&Honest>) -> (Vec<u8>, St
             b[at] = rng.u8();
             (b, "random-byte".into())
         },
+        14..=16 if !h.nested.is_empty() => {
+            // a nested header: opening-proof depth, node-vector count, inner length prefix,
+            // frame-size byte, FRI layer header, remainder length, partition exponent
+            let (name, at) = h.nested[rng.usize(h.nested.len())].clone();
+            let old = b[at];
+            let v = match rng.usize(4) {
+                0 => *rng.pick(&INTERESTING),
+                1 => *rng.pick(&[63u8, 64, 65, 127, 128, 200, 255]),
+                2 => old.wrapping_add(1),
+                _ => old ^ (1 << rng.usize(8)),
+            };
+            b[at] = v;
+            (b, format!("nested-header:{name}:{old:#x}->{v:#x}"))
+        },
+        14..=16 => (b, "unchanged".into()),
         13 => {
             // blowup factor lowered to the minimum the options allow (other context fields kept)
             let c = &h.proof.context;
